@@ -173,7 +173,12 @@ func (d *ScheduleDFS) replay(hist []string) {
 			d.Stats.Violations = append(d.Stats.Violations, v)
 		}
 	}
-	if d.Terminal != nil {
+	// the terminal oracle belongs to complete executions only (a recorded history may be the prefix at which a
+	// step oracle fired)
+	if acts := w.Enabled(); len(acts) == 0 && d.Settle != nil {
+		d.Settle()
+	}
+	if d.Terminal != nil && len(w.Enabled()) == 0 {
 		for _, v := range d.Terminal(w, hist) {
 			v.Scenario, v.History = d.Scenario, append([]string{}, hist...)
 			d.Stats.Violations = append(d.Stats.Violations, v)
